@@ -62,7 +62,21 @@ def run_sim(args):
     return res
 
 
+def die_with_parent():
+    """A worker must never outlive the check that started it (a killed check once left eight workers spinning for hours)."""
+    try:
+        import ctypes
+        import signal
+
+        ctypes.CDLL("libc.so.6", use_errno=True).prctl(1, signal.SIGKILL)  # PR_SET_PDEATHSIG
+        if os.getppid() == 1:
+            os._exit(0)
+    except Exception:
+        pass
+
+
 def main():
+    die_with_parent()
     for line in sys.stdin:
         line = line.strip()
         if not line:
